@@ -43,7 +43,7 @@ import (
 func init() {
 	kit.Register(&kit.Spec{
 		ID:   "C30",
-		Rule: "per shard one node (even shards dpos-era, odd shards dposv2-era after DPoS v2 activation) scripted through the phases dpos -> RevertToPOW -> pow -> RevertToDPOS (pending, then active) -> dpos2; per phase seeded fork scenarios: fork point = LIH+rel, rel in -3..+3 (or tip-1/tip-2), branch = re-mined copies of the main-chain blocks above the fork point (optionally dropping or adding the consensus switch) plus 0..3 fresh blocks so that it has more work, delivered forward / tip-first as orphans / with an honest main-chain block racing in the middle, through chain.ProcessBlock(b,nil), chain.ProcessBlock(b,confirm), BlockPool.AddDposBlock with and without confirm (incl. the destroy-address coinbase that bypasses the confirm requirement) and the operator call chain.ReorganizeChain(block). A case = one scenario; distinct = (era, phase, rel, extra, path, order, variant, height); non-trivial = at least one branch block was accepted into the block index (side chain or main chain), so the reorganization guard decided",
+		Rule: "per shard one node (even shards dpos-era, odd shards dposv2-era after DPoS v2 activation) scripted through the phases dpos -> RevertToPOW -> pow -> RevertToDPOS (pending, then active) -> dpos2; per phase seeded fork scenarios: fork point = LIH+rel, rel in -3..+3 (or tip-1/tip-2), branch = re-mined copies of the main-chain blocks above the fork point (optionally dropping or adding the consensus switch) plus 0..3 fresh blocks so that it has more work, delivered forward / tip-first as orphans / with an honest main-chain block racing in the middle, through chain.ProcessBlock(b,nil), chain.ProcessBlock(b,confirm), BlockPool.AddDposBlock with and without confirm (incl. the destroy-address coinbase that bypasses the confirm requirement) and the operator call chain.ReorganizeChain(block); plus, every time the node enters a phase, long-range forks: proof-of-work branches rooted in the pre-DPoS prefix at / right below CRCOnlyDPOSHeight, at heights 1, 3, CRCOnlyDPOSHeight/2 (and right above it as a control) that out-weigh the whole DPoS-era chain, delivered block by block through chain.ProcessBlock(b,nil) or left in the side chain index and requested with chain.ReorganizeChain. A case = one scenario; distinct = (era, phase, rel, extra, path, order, variant, height); non-trivial = at least one branch block was accepted into the block index (side chain or main chain), so the reorganization guard decided",
 		Shards: func(tier string) int {
 			if tier == "thorough" {
 				return 16
@@ -54,7 +54,9 @@ func init() {
 		Require: []string{"scenarios", "guard_reached", "phase:dpos", "phase:pow", "phase:dpos2", "forks_at_or_below_lih", "forks_above_lih",
 			"reorgs_performed", "reorgs_performed:mode:dpos", "reorgs_performed:mode:pow", "reorgs_refused", "reorgs_refused:at_or_below_lih", "disconnect_events", "honest_extensions", "lih_advances",
 			"switch:DPOS->POW", "switch:POW->DPOS", "path:chain-nil", "path:chain-confirm", "path:pool-confirm", "path:pool-nil", "path:pool-destroy", "path:reorganize-op",
-			"order:forward", "order:orphans", "order:race"},
+			"order:forward", "order:orphans", "order:race",
+			"long_range_fork_rooted_below_crconly_cases", "long_range_fork_rooted_below_crconly_refused", "long_range_fork_rooted_above_crconly_cases", "long_range_guard_reached",
+			"long_range:long-range-chain-nil", "long_range:long-range-reorganize-op", "long_range_mode:dpos", "long_range_mode:pow"},
 		TimeoutS: func(tier string) int {
 			if tier == "thorough" {
 				return 1500
@@ -115,18 +117,21 @@ func c30Drain() []c30Ev {
 // ---------------------------------------------------------------- run state
 
 type c30 struct {
-	c     *kit.Ctx
-	nd    *node.Node
-	r     *rand.Rand
-	era   string
-	v2    bool
-	phase string
-	nonce uint64
-	maxL  uint32 // highest LIH ever read
-	dead  bool   // the honest chain cannot be extended any more
-	samp  int
-	deck  [][2]int
-	noted map[string]bool
+	c          *kit.Ctx
+	nd         *node.Node
+	r          *rand.Rand
+	era        string
+	v2         bool
+	phase      string
+	nonce      uint64
+	maxL       uint32 // highest LIH ever read
+	dead       bool   // the honest chain cannot be extended any more
+	samp       int
+	deck       [][2]int
+	lr         int // long-range scenarios run (c30_longrange.go)
+	lrSamp     int
+	lrViolated bool
+	noted      map[string]bool
 }
 
 func (s *c30) note(key, f string, a ...interface{}) {
@@ -207,8 +212,12 @@ func (s *c30) observe(path string, what map[string]interface{}, f func() error) 
 	if len(below) > 0 {
 		o.irreversible = true
 		below = c30Uniq(below)
+		hs := fmt.Sprint(below)
+		if len(below) > 8 {
+			hs = fmt.Sprintf("%d..%d (%d heights)", below[0], below[len(below)-1], len(below))
+		}
 		s.c.Violate("irreversible-block-detached:"+path,
-			fmt.Sprintf("%s/%s: last irreversible height was %d (tip %d) before the call; the call disconnected %d block(s) of the active chain, heights %v are at or below it", s.era, s.phase, o.lih0, o.h0, o.disc, below), detail())
+			fmt.Sprintf("%s/%s: last irreversible height was %d (tip %d) before the call; the call disconnected %d block(s) of the active chain, heights %s are at or below it", s.era, s.phase, o.lih0, o.h0, o.disc, hs), detail())
 	}
 	// blocks at or below an EARLIER (higher) recorded LIH: only possible after LIH went down
 	if len(below) == 0 && o.disc > 0 && o.minDisc <= s.maxL {
@@ -887,6 +896,18 @@ func runC30(c *kit.Ctx) {
 				c.Inc("mode_change:" + lastLabel + "->" + label)
 			}
 			inPhase, lastLabel = 0, label
+			// every time the node enters a phase: long-range forks rooted at / below CRCOnlyDPOSHeight (c30_longrange.go)
+			nLR := c.N(1, 3)
+			if s.lr == 0 {
+				nLR = c.N(2, 3)
+			}
+			for j := 0; j < nLR; j++ {
+				s.longRange(label, s.lr)
+				s.lr++
+			}
+			if s.dead || nd.InPOWMode() != pow {
+				continue
+			}
 		}
 		s.phase = label
 		if label == "pow-pending" {
